@@ -17,7 +17,7 @@ from harness.common.ctx import Timeout, time_limit
 from harness.props import c13 as base
 
 EXE = "c14_model"
-PROPS = ["Holpy.C14.Props", "Holpy.C14.Props2"]
+PROPS = ["Holpy.C14.Props", "Holpy.C14.Props2", "Holpy.C14.Props3"]
 
 
 def ids(pos):
@@ -166,8 +166,78 @@ class Examiner:
             ctx.violation("search-modifies-state", "search_method(%s, %s) changed the state on %s" % (ids(gp), [ids(f) for f in fs], goal.ident()),
                           {"goal": goal.to_json(), "trail": trail, "goal_id": ids(gp), "fact_ids": [ids(f) for f in fs]})
         ctx.count("search:%d-facts" % len(fs))
+        try:
+            self.filter_stream(state, gp, fs, res)
+        except Timeout:
+            raise
+        except Exception as e:  # noqa
+            ctx.count("search:filter-stream-error:%s" % type(e).__name__)
         for r in res:
             self.test_suggestion(goal, trail, state, gp, r)
+
+    # ---------------------------------------------------------------- search-side model (Holpy/C14/Model.lean, `Sel`)
+    FILTER_METHODS = ["introduction", "exists_elim", "forall_elim", "inst_exists_goal"]
+    # message of the assertions `apply` makes before it looks at a parameter, and data that gets it there
+    FIRST_TESTS = {"introduction": ({"names": ""}, ("introduction: id is not a gap", "introduction")),
+                   "exists_elim": ({"names": "zq9"}, ("exists_elim", "exists_elim: id is not a gap")),
+                   "inst_exists_goal": ({"s": "true"}, ("apply_tactic: id is not a gap",
+                                                        "inst_exists_goal: goal is not exists statement"))}
+
+    def sel_flags(self, state, line, fs):
+        prop = state.get_proof_item(line).th.prop
+        f0 = state.get_proof_item(fs[0]).th.prop if fs else None
+        return [len(fs), bool(prop.is_forall()), bool(prop.is_implies()), bool(prop.is_exists()),
+                bool(f0 is not None and f0.is_forall()), bool(f0 is not None and f0.is_exists())]
+
+    def filter_stream(self, state, gp, fs, res):
+        """Stream `search:filter`: which of the four shape-filter methods the real `search_method`
+        suggested for this selection, against the model's filters.  Stream `search:applicable`
+        (sampled; also on a line that is not a gap): do the first assertions of the real `apply` pass,
+        against the model's `applicable*`."""
+        rec = self.recorder
+        if rec is None or not hasattr(rec, "search_records"):
+            return
+        n = sum(1 for r in rec.search_records if r[0] == "search:filter")
+        if n >= 1500:
+            return
+        try:
+            flags = self.sel_flags(state, gp, fs)
+        except Exception:  # noqa
+            return
+        real = [any(r.get("method_name") == m for r in res) for m in self.FILTER_METHODS]
+        rec.search_records.append(("search:filter", ["searchfilter"] + flags, real))
+        if n % 6 != 0 or n >= 900:
+            return
+        from server import method
+        lines = [gp]
+        other = [pos for pos, it in base.walk(state) if it.rule not in ("sorry", "subproof") and it.th is not None
+                 and all(base.visible(f, pos) for f in fs)]
+        if other:
+            lines.append(other[n // 6 % len(other)])
+        for line in lines:
+            try:
+                fl = self.sel_flags(state, line, fs)
+                rule = rec.rcode(state.get_proof_item(line).rule)
+            except Exception:  # noqa
+                continue
+            passed = []
+            for m in ("introduction", "exists_elim", "inst_exists_goal"):
+                data, msgs = self.FIRST_TESTS[m]
+                step = dict(data, method_name=m, goal_id=ids(line), fact_ids=[ids(f) for f in fs])
+                ok = True
+                try:
+                    with time_limit(base.STEP_LIMIT):
+                        method.apply_method(copy.copy(state), step)
+                except AssertionError as e:
+                    ok = str(e) not in msgs
+                except Timeout:
+                    passed = None
+                    break
+                except Exception:  # noqa   got past the first tests (parameter query, later failures)
+                    ok = True
+                passed.append(ok)
+            if passed is not None:
+                rec.search_records.append(("search:applicable", ["applicable", rule] + fl, passed))
 
     # ---------------------------------------------------------------- one suggestion
     def test_suggestion(self, goal, trail, state, gp, sugg):
@@ -570,14 +640,27 @@ MANIFEST = {
             "stated by an earlier visible line or be trivially true by an independent test), the state after a _goal or _fact suggestion "
             "must re-check, an advertised _fact appears as a new non-gap line. Model streams (c14_model): every apply_tactic / forward-step "
             "primitive call made while applying suggestions; method-level records of cut / forall_elim / apply_fact / new_var / cases / "
-            "introduction / revert_intro against cutM / forwardFact / casesM / introM / revertIntroM; `advertised-vs-export`: the _goal list of a suggestion = the gaps of the export captured while "
-            "applying it. PROVED (exported lines numbered id, id+1, .. without subproofs - checked on every captured export): "
+            "introduction / revert_intro / rewrite_fact / rewrite_fact_with_prev / apply_forward_step against cutM / forwardFact / casesM / "
+            "introM / revertIntroM / forwardCloseM; `advertised-vs-export`: the _goal list of a suggestion = the gaps of the export captured "
+            "while applying it; `search:filter`: which of introduction / exists_elim / forall_elim / inst_exists_goal search_method "
+            "suggested for a selection, against the model's shape filters; `search:applicable`: whether the first assertions of the real "
+            "apply of introduction / exists_elim / inst_exists_goal pass (also on a line that is not a gap), against the model's "
+            "applicable*. PROVED (exported lines numbered id, id+1, .. without subproofs - checked on every captured export): "
             "open_goals_subset_advertised, solving_shape_closes_exactly_the_goal, advertised_eq_applied_apply_backward_step / _rewrite_goal "
             "(gaps after <= gaps before minus the goal plus the advertised ones, as multisets; nothing advertised = exactly the goal "
             "disappears), advertised_eq_applied_cases (at most the two case goals open), advertised_eq_applied_cut (exactly one new gap "
             "with the given sequent), advertised_eq_applied_forall_elim (a forward step leaves the gaps exactly as they were), "
             "advertised_eq_applied_introduction (introM = the subproof splice + the already-proved loop, compared with every real "
-            "introduction: the goal line is closed, newly open gaps are among those of the new subproof). NOT proved: that a vanished advertised gap went through find_goal / trivial (by "
+            "introduction: the goal line is closed, newly open gaps are among those of the new subproof), "
+            "advertised_eq_applied_tactic_methods (induction, rewrite_goal_with_prev, apply_resolve_step, inst_exists_goal, apply_prev: "
+            "the apply_tactic law, as for apply_backward_step), advertised_eq_applied_new_var_apply_fact (gaps exactly as before), "
+            "advertised_eq_applied_forward_close (rewrite_fact, rewrite_fact_with_prev, apply_forward_step: no gap opened; the goal may be "
+            "closed by an earlier line), advertised_eq_applied_revert_intro_partial (at most the re-stated gap is newly open; that the old "
+            "statement is gone is not in the theorem), search_suggestions_apply_partial (for introduction, exists_elim, inst_exists_goal: a "
+            "suggestion returned by the shape filter for a gap passes the assertions apply makes before it looks at a parameter; "
+            "forall_elim.apply asserts nothing on shape; searches that enumerate theorems are oracle-only). NOT modelled on the method "
+            "level: exists_elim.apply (it re-states the sequents of the following lines in place; oracle + C13's alias model only), "
+            "sorry/z3/other methods without suggestions of their own shape. NOT proved: that a vanished advertised gap went through find_goal / trivial (by "
             "construction of the model only), search bodies (a tactic is the list of its exported lines; search and apply evaluating the "
             "same term is the stream, not a theorem).",
     "note": "Trusted: Lean kernel (propext/Classical.choice/Quot.sound), harness generators and parameter guesses, the reading of `_goal`/`_fact` "
